@@ -65,6 +65,13 @@ var stageG = []string{
 	"SymbolTable.IsDisjoint", "MatchedVariables.Insert",
 }
 
+// (H) the predicate / rule / check printers of datalog/symbol.go; equality theorems in
+// Proofs/GenFnPrintPredProofs.v
+var stageH = []string{
+	"SymbolDebugger.Predicate", "SymbolDebugger.Expression", "SymbolDebugger.CheckQuery",
+	"SymbolDebugger.Rule", "SymbolDebugger.Check",
+}
+
 func main() {
 	args := os.Args[1:]
 	whitelist = append(whitelist, unproved...)
@@ -72,6 +79,7 @@ func main() {
 	whitelist = append(whitelist, stageE...)
 	whitelist = append(whitelist, stageF...)
 	whitelist = append(whitelist, stageG...)
+	whitelist = append(whitelist, stageH...)
 	if len(args) > 0 && args[0] == "-all" {
 		args = args[1:]
 	}
@@ -114,6 +122,9 @@ func main() {
 	}
 	if tr.needGoMap {
 		b.WriteString("From BV Require Import GoMap. (* strset_empty/add/mem: map[string]struct{}; map_set: the write m[k] = &v *)\n")
+	}
+	if tr.needPrinter {
+		b.WriteString("From BV Require Printer. (* Printer.join: strings.Join *)\n")
 	}
 	b.WriteString("\n")
 	b.WriteString("Definition genfn_whitelist : list (list N) := (* names of the requested functions *)\n  [")
